@@ -354,7 +354,15 @@ func (g *G) PropSchema(depth int, inArray bool) M {
 	default:
 		s = g.ObjSchema(depth)
 	}
+	if g.O.Formats && (k == "int" || k == "num" || k == "bool") && r.P(0.12) {
+		// `format` on a non-string type is an annotation the generator must ignore
+		s["format"] = core.Pick(r, []string{"date-time", "date", "time", "ipv4", "ipv6", "int32", "email"})
+		g.hit("kw:format-on-non-string")
+	}
 	_, isFmt := s["format"]
+	if k != "str" {
+		isFmt = false
+	}
 	if g.O.Defaults && !inArray && !isFmt && (k == "int" || k == "num" || k == "str" || k == "bool") && r.P(0.15) {
 		var cands []any
 		switch k {
